@@ -159,6 +159,21 @@ func newC16Universe(k int, special int) *c16Universe {
 			add(pp.name+"#", 2, pp.jsonTag, "")
 		}
 	}
+	// a JSON document whose only profile-like members are case variants of "eat-profile" (with different values): none of
+	// them is the profile member; whatever the outcome, it is the same on every call
+	{
+		c, j := dispatchTokens(refmodel.P2Name, 2, "eat-profile")
+		var m map[string]any
+		json.Unmarshal(j, &m)
+		delete(m, "eat-profile")
+		m["Eat-Profile"] = refmodel.P2Name
+		m["EAT-PROFILE"] = "http://unknown.example/psa"
+		m["eat-Profile"] = refmodel.P1Name
+		j, _ = json.Marshal(m)
+		u.names = append(u.names, "case-variants")
+		u.tokens["case-variants"] = [2][]byte{c, j}
+		u.declares["case-variants"] = nil
+	}
 	// tokens that declare two profiles at once (different JSON members / CBOR keys)
 	both := func(label string, first string, base int, tag string, extraTag, extraName string, extraKey int64) {
 		c, j := dispatchTokens(first, base, tag)
@@ -259,7 +274,7 @@ func (u *c16Universe) observe(perm int, rec *sched.Recorder) *c16Obs {
 		defer attachHook(nil)
 	}
 	for _, n := range u.names {
-		if n != "" && !strings.HasPrefix(n, "both:") {
+		if n != "" && !strings.HasPrefix(n, "both:") && n != "case-variants" {
 			cl, err := psatoken.NewClaims(n)
 			if err != nil {
 				o.vec = append(o.vec, "new("+n+")=err")
@@ -489,7 +504,7 @@ func c16System(k int, special int) func() bfs.System {
 			}
 			// absolute expectations
 			for _, n := range u.names {
-				if n == "" || strings.HasPrefix(n, "both:") {
+				if n == "" || strings.HasPrefix(n, "both:") || n == "case-variants" {
 					continue
 				}
 				isReg := registered[n] || n == refmodel.P1Name || n == refmodel.P2Name
